@@ -36,6 +36,7 @@ MAP = [
  ("ELF loader computes the TLS end address with wrapping", ["C16"], "a PT_TLS header on an area ending at 2^64 panicked on p_vaddr + len (overflow-checked builds)"),
  ("pipe() draws its descriptor numbers again", ["C14", "C20"], "pipe() failed at random (about k/32768 with k open pipes) when a freshly drawn descriptor number was already in use; equal numbers for both ends were accepted"),
  ("pipe() returns an error when the second descriptor slot", ["C14", "C19"], "pipe(fd_array) with fd_array = 2^64-8 inside an area ending at 2^64 panicked on fd_ptr + 8"),
+ ("init_stack_program_start returns an error instead of overflowing", ["C17"], "init_stack_program_start(len, ..) with len + frame size >= 2^64 (e.g. len = 2^64-16) panicked on `length + frame_size` (wrapped to a tiny stack without overflow checks) instead of returning an error"),
  ("zero-filled memory is allocated fallibly", ["C13", "C19"], "brk(2^40) with nothing above the heap (or mem_init_zero with such a length) aborted the process with an allocation failure"),
  ("a CS segment override on a memory operand is accepted", ["C05", "C06"], "a 0x2E (CS) prefix on a memory operand made the step fail with 'Unsupported segment register: CS'"),
 ]
